@@ -2,11 +2,15 @@
 # Runs every seeded change against the check of its property in a scratch clone of /repo
 # (so /repo and /verif/evidence are left alone); writes /verif/seeded/RESULTS.txt
 set -u
-R=/tmp/repo_matrix
-rm -rf $R /tmp/verif_matrix_work /tmp/verif_matrix_evid
+# env: ONLY=<regex on ids> (partial run), SUFFIX=<tag> (several streams side by side), OUT=<file name under seeded/>
+S=${SUFFIX:-}
+R=/tmp/repo_matrix$S
+W=/tmp/verif_matrix_work$S
+E=/tmp/verif_matrix_evid$S
+rm -rf $R $W $E
 git clone -q /repo $R
-export VERIF_REPO=$R VERIF_WORK=/tmp/verif_matrix_work VERIF_EVID=/tmp/verif_matrix_evid
-out=/verif/seeded/RESULTS.txt
+export VERIF_REPO=$R VERIF_WORK=$W VERIF_EVID=$E
+out=/verif/seeded/${OUT:-RESULTS.txt}
 : > $out.tmp
 for d in /verif/seeded/*/; do
   id=$(basename $d)
@@ -30,4 +34,4 @@ if [ -n "${ONLY:-}" ]; then
 else
   mv $out.tmp $out
 fi
-rm -rf $R /tmp/verif_matrix_work /tmp/verif_matrix_evid
+rm -rf $R $W $E
